@@ -73,9 +73,38 @@ def run_job(job):
         for k, v in getattr(hm, "ENGINE_OPTS", {}).items():
             setattr(eng, k, v)
         fn = hm.build(job)
+        def confirm(cexs):
+            """Refine each new counterexample into a replayable model and replay it on the real stack.
+            True (stop exploring) as soon as one reproduces; otherwise it is recorded and exploration goes on."""
+            for c in cexs:
+                tried = []
+                if c.get("hint"):
+                    # a witness of the regular over-approximation for the only string involved: try it first
+                    inputs = {n: ("" if srt == "str" else 0 if srt == "int" else False) for n, srt in eng.inputs.items()}
+                    inputs.update(c["hint"])
+                    out, labels, _ = _concrete_run(hm, job, inputs, job.get("known_active", ()))
+                    if labels:
+                        res["violations"].append(dict(label=c["label"], observed=labels, inputs=inputs, outcome=str(out)))
+                        return True
+                for _ in range(4):
+                    inputs = eng.concretize(c["pc"], c["neg"], c["cf_apps"], block=tried)
+                    if inputs is None:
+                        break
+                    if not eng.last_concretize_refined:
+                        tried.append(inputs)
+                        continue
+                    out, labels, _ = _concrete_run(hm, job, inputs, job.get("known_active", ()))
+                    if labels:
+                        res["violations"].append(dict(label=c["label"], observed=labels, inputs=inputs, outcome=str(out)))
+                        return True
+                    tried.append(inputs)
+                res["nonrepro"].append(dict(label=c["label"], tried=tried[:2]))
+                if len(res["nonrepro"]) >= 6:
+                    return True     # too many unconfirmed counterexamples: stop, the job is inconclusive anyway
+            return False
         try:
             eng.explore(fn, stop_on_cex=True, prefix=job.get("prefix"), frontier_depth=job.get("frontier_depth"),
-                        slice_s=job.get("slice_s", 45))
+                        slice_s=job.get("slice_s", 45), on_cex=confirm)
         except Unsupported as e:
             res["status"] = "inconclusive"
             res["error"] = "unsupported: " + " ".join(str(e).split())[:300]
@@ -86,34 +115,6 @@ def run_job(job):
         res["outcomes"] = dict(eng.outcomes)
         res["frontier"] = eng.frontier
         res["known_seen"] = sorted(eng.known_seen)
-        # ---- counterexamples: refine into a replayable model, replay on the real stack
-        for c in eng.cex:
-            tried, reproduced = [], False
-            if c.get("hint"):
-                # a witness of the regular over-approximation for the only string involved: try it first
-                inputs = {n: ("" if srt == "str" else 0 if srt == "int" else False) for n, srt in eng.inputs.items()}
-                inputs.update(c["hint"])
-                out, labels, _ = _concrete_run(hm, job, inputs, job.get("known_active", ()))
-                if labels:
-                    res["violations"].append(dict(label=c["label"], observed=labels, inputs=inputs, outcome=str(out)))
-                    break
-            for _ in range(4):
-                inputs = eng.concretize(c["pc"], c["neg"], c["cf_apps"], block=tried)
-                if inputs is None:
-                    break
-                if not eng.last_concretize_refined:
-                    tried.append(inputs)
-                    continue
-                out, labels, _ = _concrete_run(hm, job, inputs, job.get("known_active", ()))
-                if labels:
-                    res["violations"].append(dict(label=c["label"], observed=labels, inputs=inputs, outcome=str(out)))
-                    reproduced = True
-                    break
-                tried.append(inputs)
-            if not reproduced:
-                res["nonrepro"].append(dict(label=c["label"], tried=tried[:2]))
-            else:
-                break
         # ---- differential validation of explored paths: symbolic outcome == real-stack outcome
         for p in eng.path_log:
             inputs = eng.concretize(p["pc"], None, p["cf_apps"], pretty=bool(getattr(hm, "PRETTY_SAMPLES", False)))
